@@ -3,7 +3,7 @@
    inside Coq (vm_compute, bound in the statement); the header, the 24-bit loss count, NACK pairs, SLI words and FIR
    entries are general bit-field proofs. *)
 From RTCP Require Import Proofs.Tactics Model.Header Model.Reports Model.Feedback Model.Twcc Model.Ccfb Spec.Enc
-  Proofs.HeaderProofs Proofs.Units Proofs.EncReports Proofs.EncFeedback.
+  Proofs.HeaderProofs Proofs.Units Proofs.EncReports Proofs.EncFeedback Proofs.Extras.
 Local Open Scope N_scope.
 
 (* common header: every padding flag, 5-bit count, type and 16-bit length *)
@@ -101,3 +101,20 @@ Theorem C16_setNBitsOfUint16 : forall src size start val, start + size <= 16 ->
   setNBitsOfUint16 src size start val = Ok (N.lor src ((val mod 2 ^ size) * 2 ^ (16 - size - start))).
 Proof. exact setNBitsOfUint16_spec. Qed.
 Print Assumptions C16_setNBitsOfUint16.
+
+(* XR RLE chunk accessors (Type / RunType / Value): they decompose every one of the 2^16 chunk values uniquely *)
+Theorem C16_xr_chunk_run_length : forall c, c < 65536 -> chunk_type c = Gen.Consts.c_RunLengthChunkType ->
+  exists rt, chunk_run_type c = Ok rt /\ rt < 2 /\ chunk_value c < 16384 /\ c = rt * 16384 + chunk_value c.
+Proof. exact chunk_run_length. Qed.
+Print Assumptions C16_xr_chunk_run_length.
+Theorem C16_xr_chunk_bit_vector : forall c, c < 65536 -> chunk_type c = Gen.Consts.c_BitVectorChunkType ->
+  chunk_run_type c = Err /\ chunk_value c < 32768 /\ c = 32768 + chunk_value c.
+Proof. exact chunk_bit_vector. Qed.
+Print Assumptions C16_xr_chunk_bit_vector.
+Theorem C16_xr_chunk_null : forall c, c < 65536 -> (chunk_type c = Gen.Consts.c_TerminatingNullChunkType <-> c = 0).
+Proof. exact chunk_null_iff. Qed.
+Print Assumptions C16_xr_chunk_null.
+Theorem C16_xr_chunk_accessors_injective : forall c d, c < 65536 -> d < 65536 ->
+  chunk_type c = chunk_type d -> chunk_run_type c = chunk_run_type d -> chunk_value c = chunk_value d -> c = d.
+Proof. exact chunk_accessors_injective. Qed.
+Print Assumptions C16_xr_chunk_accessors_injective.
